@@ -96,10 +96,11 @@ class Problem:
 
 def run(opts, scale=1.0, seed=1, dims=2, n=30, fail_at=None, resume_from=None, capture=True, kernel_steps=2):
     """one SMC run; returns a record"""
-    pr = Problem(dims=dims, scale=scale, seed=seed, fail_at=fail_at)
+    kw = dict(opts)
+    # `_box`: half-width of the prior support; a narrow box makes the proposal draw points outside the prior (several proposal rounds)
+    pr = Problem(dims=dims, scale=scale, seed=seed, fail_at=fail_at, box=kw.pop("_box", 10.0))
     s = pr.sampler()
     payloads = []
-    kw = dict(opts)
     user_cb = kw.pop("_user_callback", False)
     if capture and (user_cb or kw.get("checkpoint_every") is not None):
         def cb(state, _s=s):
@@ -272,6 +273,7 @@ GRID_QUICK = [
     dict(adaptive=True, checkpoint_every=1), dict(adaptive=True, checkpoint_every=3, max_n_steps=5),
     dict(n_steps=5, adaptive=True), dict(adaptive=True, target_efficiency=0.9), dict(adaptive=True, target_efficiency=0.1, min_step=0.0),
     dict(adaptive=True, _user_callback=True),
+    dict(adaptive=True, _box=1.5), dict(n_steps=4, adaptive=False, _box=2.5, n_final_samples=40),
 ]
 
 
@@ -431,8 +433,45 @@ def native_C08(tier, seed):
 
 
 def native_C18(tier, seed):
-    return _collect(tier, seed, lambda r: [x for x in history_failures(r) if x[0].startswith("C18")],
-                    "series lengths, stored populations and recorded values recomputed from neighbouring populations")
+    res = _collect(tier, seed, lambda r: [x for x in history_failures(r) if x[0].startswith("C18")],
+                   "series lengths, stored populations and recorded values recomputed from neighbouring populations; the same on runs interrupted at a likelihood call and resumed (bytes / dict / file)")
+    # interrupted and resumed runs: the history of the resumed run must satisfy the same clauses
+    import pickle
+    from . import native_ckpt as K
+    configs = [dict(n_steps=4, adaptive=False, checkpoint_every=1), dict(adaptive=True, checkpoint_every=2, min_step=0.05),
+               dict(adaptive=True, checkpoint_every=1, n_final_samples=30)]
+    n_res = 0
+    for ci, o in enumerate(configs):
+        path, d = K._fresh_path("c18")
+        try:
+            ref = K.run_with_file(o, path, seed + ci)
+            ncalls = ref["problem"].like_calls
+            pts = sorted({max(2, ncalls // 3), max(2, ncalls // 2), max(2, ncalls - 1)}) if tier == "quick" else list(range(2, ncalls + 1))
+            for k in pts:
+                if os.path.exists(path):
+                    os.remove(path)
+                r = K.run_with_file(o, path, seed + ci, fail_at=k)
+                if r["exc"] is None or not r["payloads"]:
+                    continue
+                last = r["payloads"][-1][1]
+                for route, src in (("bytes", last), ("dict", pickle.loads(last)), ("path", path)):
+                    p2, d2 = K._fresh_path("c18r")
+                    try:
+                        rr = K.run_with_file(o, p2, seed + ci, resume_from=src)
+                        rr.update({"opts": dict(o, resume_from=route), "n": 24, "scale": 5.0, "seed": seed + ci})
+                        n_res += 1
+                        for nm, detail in history_failures(rr, resumed=True):
+                            if nm.startswith("C18"):
+                                res["failures"].append({"id": f"resumed-{ci}-{k}-{route}", "obligation": nm, "what": f"{nm} [resumed run]: {str(detail)[:200]}",
+                                                        "input": {"opts": o, "seed": seed + ci, "fault_at_likelihood_call": k, "route": route,
+                                                                  "checkpoint_iteration": r["payloads"][-1][0]}})
+                    finally:
+                        K._cleanup(d2)
+        finally:
+            K._cleanup(d)
+    res["cases"] += n_res
+    res["bound"] += f" + {n_res} interrupted-and-resumed runs"
+    return res
 
 
 def native_C10(tier, seed):
